@@ -87,6 +87,10 @@ func GetGroupByData(table *Table, peer *Peer) *DataStore {
 	}
 	store := NewDataStore(table, peer)
 	store.dataSet = peer.data.Load()
+	if store.dataSet == nil {
+		// the peer went down between the status check above and loading its data
+		return nil
+	}
 	data := make(ResultSet, 0)
 	dataSet := store.dataSet
 	switch store.table.name {
